@@ -164,6 +164,16 @@ def t_multi(case):
             h.assume(ops.equal(n, 0))
         elif case == 'newer':
             h.assume(ops.land(ops.compare('>', n, 0), ops.compare('>', batch.fn(0).e[0], old.fn(ops.arith('-', n, 1)).e[0])))
+        elif case == 'overlap':
+            # the first m-k minutes of the batch are stored already (they are the last m-k stored ones), the last k are new
+            k = h.int('k', 1)
+            h.assume(ops.land(ops.compare('<', k, m), ops.compare('<=', m, n)))
+            q = ops.fresh_qvar('s')
+            off = ops.arith('-', n, ops.arith('-', m, k))
+            h.ctx.s.add(z3.ForAll([q], z3.Implies(z3.And(q >= 0, q < z3num(m) - z3num(k)),
+                                                  batch.fn(Sym(q, 'int')).e[0].t == old.fn(ops.arith('+', off, Sym(q, 'int'))).e[0].t)))
+            h.assume(ops.equal(batch.fn(ops.arith('-', m, 1)).e[0],
+                               ops.arith('+', old.fn(ops.arith('-', n, 1)).e[0], ops.arith('*', k, 60000))))
         else:
             h.assume(ops.compare('<=', m, n))
             q = ops.fresh_qvar('s')
@@ -180,6 +190,11 @@ def t_multi(case):
         if case in ('empty', 'newer'):
             want = h.interp.lib.list_concat(h.interp, old, b)
             h.prove(ops.equal(new, want), f'add_multiple.{case}.appended')
+        elif case == 'overlap':
+            head = h.interp.lib.getitem(h.interp, old, h.interp.e_Slice(__import__('ast').parse('x[:k]', mode='eval').body.slice,
+                                                                        _fr({'k': ops.arith('-', n, ops.arith('-', m, k))})))
+            want = h.interp.lib.list_concat(h.interp, head, b)
+            h.prove(ops.equal(new, want), 'add_multiple.overlap.stored-minutes-replaced-and-new-minutes-appended')
         else:
             head = h.interp.lib.getitem(h.interp, old, h.interp.e_Slice(__import__('ast').parse('x[:k]', mode='eval').body.slice,
                                                                         _fr({'k': ops.arith('-', n, m)})))
@@ -262,7 +277,7 @@ def tasks(tier):
     for case in ('empty', 'newer', 'stored'):
         ts.append(Task(f'add.{case}', t_add(case), extra=dict(xa), overrides=dict(ov), invariants={add_key: K.ADD_INV}))
     ts.append(Task('add.zero', t_add_zero, extra=dict(xa), overrides=dict(ov), invariants={add_key: K.ADD_INV}))
-    for case in ('empty', 'newer', 'same'):
+    for case in ('empty', 'newer', 'same', 'overlap'):
         ts.append(Task(f'multi.{case}', t_multi(case), extra=x, overrides=dict(ov)))
     for bad in (True, False):
         ts.append(Task(f'spacing.{"bad" if bad else "ok"}', t_spacing(bad), extra=x, overrides=dict(ov)))
